@@ -91,8 +91,9 @@ SPEC = dict(
          "exactly len-width+1 scores: the weights of update_holdout) and pssm= (Iteration.pssm is bit for bit "
          "counts.to_freq(0.1).into_scoring(background of the alignment without z), recomputed from the data set). PROPFAIL = the extracted, proved-sound-and-complete "
          "checker check_C16 (binary32 frequencies replayed bit for bit) rejects the implementation's own "
-         "observations; DIFF = the extracted model, replayed with the choice list read off the trace (z, new start, "
-         "zoops accept/reject), does not reproduce a state, an iteration, the convergence or a panic. "
+         "observations (hand-written additions, all stricter: see trusted_base); DIFF = the extracted model, replayed with the "
+         "choice list read off the trace (z, new start, zoops accept/reject), does not reproduce a state, an iteration, the "
+         "convergence or a panic. "
          "Non-trivial: the run moved at least one start and, in zoops mode, recruited at least one sequence "
          "(computed by the generator, field nt=moved:recruited:calls); distinct by configuration and data set. "
          "Round 3: generated data sets also contain RUNS of the wildcard (one sequence in four: 1..w+2 consecutive N / X), one "
@@ -105,31 +106,53 @@ SPEC = dict(
          "into coq/sampler/GenSampler.v (statement lists of include_sequence / exclude_sequence / the two construction loops of _new, "
          "wrap guard, Uniform::new bounds, pseudocount literal and its binary32 bits, weight expression, select_holdout, the call list of "
          "next()); SamplerSkel.v proves that INTERPRETING the generated data equals the hand model for all states (17 gen_* theorems "
-         "+ 3 helper lemmas, ending in gen_next_is_model). Property files: C16.v (19), C16F.v (13), SamplerSkel.v (20): 52 obligations.",
+         "ending in gen_next_is_model; the 3 helper lemmas moved to the unaudited SamplerSkelLemmas.v). Wave 3: the "
+         "harness prints every word the generator hands out (rw=, typed u32/u64) during the construction and during each call; the driver "
+         "recomputes from them, with the extracted SamplerStream.v (rand 0.8.8 Uniform<usize>::sample, gen_index, index::sample, one u64 per "
+         "WeightedIndex::sample), the initial starts, in Zoops mode the seed list in index::sample's order, and the hold-out of EVERY call, and "
+         "compares them with the implementation's; the words left after the hold-out's must be none or exactly the one u64 of the draw; the first "
+         "6 float-replayed calls also go through next_w as a whole. An implementation panic (P;at=<file>;msg=<message>;rw=<words>) is accepted only "
+         "if the model, run with the hold-out its words determine, panics at a documented site (construction 1, 2, 14; next() 5..9) whose message "
+         "class is the implementation's (table site_class in driver.ml); the weight overflow (site 8; corpus p16 is a real input) is explained "
+         "through the float model with OCaml's libm as stand-in (must reach WPanic, else DIFF). Property files: C16.v (19 property theorems), "
+         "C16F.v (28 property theorems), SamplerSkel.v (17 translation-tie theorems gen_*: interpreter of the translated statement lists = hand "
+         "model): 64 obligations, 47 of them about the property.",
     trusted_base=[
-        "Coq 8.16.1 kernel (coqc); vm_compute only in the non-vacuity Examples; no native_compute; all "
-        "theorems of C16.v are closed under the global context (no axioms)",
-        "extraction: ExtrOcamlBasic only (nat, N, Z, positive, list, option kept as extracted inductives); OCaml 4.13.1",
+        "Coq 8.16.1 kernel (coqc); vm_compute only in the non-vacuity Examples, in the concrete counterexample "
+        "C16F.sampler_no_panic_oops_unconditional_refuted and in the tie SamplerSkel.gen_weights_are_model; no native_compute",
+        "extraction: ExtrOcamlBasic only (its Extract Inductive directives for bool, option, list, prod, unit, sumbool, sumor); "
+        "no other Extract Inductive, no Extract Constant (nat, N, Z, positive stay extracted inductives); OCaml 4.13.1",
         "LMBase.IEEE binary32 division / integer conversion on Flocq 4.1 (used only to render the background "
         "frequencies count as f32 / total as f32; the theorems are parametric in that rendering)",
         "hand-written OCaml driver ocaml/sampler/driver.ml (parsing of the trace, mapping of active_sequences/"
-        "active_starts/verif_starts to the report record, reading the choice list off the trace)",
+        "active_starts/verif_starts to the report record, reading the choice list off the trace, replay of the recorded generator "
+        "words rw= through the extracted SamplerStream functions starts_w / seeds_w / holdout_w / next_w)",
+        "hand-written PROPFAIL paths of the driver (all stricter than check_C16): nondeterministic-trace (the HARNESS compares the two "
+        "runs, the driver reads rerun=same), active_starts-length, active-index-out-of-range, hold-out-index-out-of-range "
+        "(observations that cannot be turned into a report record for the checker); iteration-step-number and the other clause "
+        "names (start-out-of-range, count-matrix / background / iteration-counts differ) only NAME the failing clause through the "
+        "extracted component checkers, the verdict is check_C16's; the table site_class (panic message classes per documented "
+        "site) decides which implementation panics count as documented. No fail-open path: every skipped comparison is a DIFF "
+        "(word of unmodelled kind, unmodelled index::sample branch Err 6, missing rw=), except the documented limit 'float replay "
+        "only on the first fl calls'",
         "Rust harness harness/src/bin/sampler.rs (public API + the add-only hook Sampler::verif_starts, catch_unwind; "
-        "the linear order of a striped matrix: symbol i at row i mod R, column i div R)",
+        "the linear order of a striped matrix: symbol i at row i mod R, column i div R; a recording wrapper of the generator "
+        "(rw=: every word handed out, typed); the panic hook (file base name + message of the last panic); the comparison of "
+        "the two runs = rerun=same)",
         "modelled, not verified: sampler.rs itself (the Gallina model SamplerModel.v follows _new, SamplerBuilder, "
         "select_holdout, include_sequence, exclude_sequence, prepare_pssm/background(), update_holdout, "
         "Iterator::next statement by statement with every panic site explicit; tied to the code only by the "
-        "correspondence run); rand (Uniform, WeightedIndex, index::sample, SliceRandom::choose) is replaced by the "
-        "choice list; the f32/f64 part (to_freq(0.1), into_scoring, scalar score definition, 2f64.powf weights, rand 0.8.8 "
+        "correspondence run and the translator's SamplerSkel.v ties); rand's sampling code (Uniform<usize>::sample, gen_index / "
+        "sample_single_inclusive, index::sample, UniformFloat, WeightedIndex) is MODELLED in SamplerStream.v / SamplerF32.v from the "
+        "source of rand 0.8.8 and tied by the replay of the recorded words (rw=) on every call; the generator (StdRng = ChaCha12: "
+        "seed -> words) is not modelled: its words are inputs; the f32/f64 part (to_freq(0.1), into_scoring, scalar score definition, 2f64.powf weights, rand 0.8.8 "
         "WeightedIndex::new / UniformFloat::new / sample_single-free `sample`, information_content) is modelled in SamplerF32.v on Flocq "
         "binary32/binary64 and tied by the float replay of the first fl calls; libm (log2f, 2f32.powf, 2f64.powf) enters as oracle "
-        "tables printed by the harness, re-validated (one output per input, close to OCaml's log2/pow); select_holdout's integer "
-        "draw and the initial draws (Uniform<usize>, index::sample) stay inputs read off the trace",
-        "translator translate/sampler_skel.py (token patterns + brace matching + a linear-expression normaliser over sampler.rs; "
+        "tables printed by the harness, re-validated (one output per input, close to OCaml's log2/pow)",
+        "translator translate/sampler_skel.py (token patterns + brace matching + a linear-expression normaliser over lightmotif/src/sampler.rs -> coq/sampler/GenSampler.v; "
         "anything outside the recognised shapes is reported as 'cannot parse' = broken obligation)",
         "C16F.v / SamplerF64.v / SamplerScale.v / SamplerWord.v use Flocq's real-number semantics (B2R, Bplus_correct, Bmult_correct, "
-        "Bminus_correct, Bcompare_correct): the allow-listed classical axioms of the Coq Reals appear under Print Assumptions for "
-        "those theorems; C16.v stays axiom-free",
+        "Bminus_correct, Bcompare_correct; SamplerFuel.v for the fuel of Uniform::new's scale loop)",
     ],
     assumptions=[
         "symbols of an encoded sequence are < K (Rust type invariant of Symbol; re-checked on every data set: sym=)",
@@ -144,12 +167,34 @@ SPEC = dict(
         "documented outside the quantifier (DESIGN 3/C16): panics of the unchanged code with an empty active set "
         "(single sequence, zoops with 0 or 1 seed, all active sequences exactly as long as the width), an empty "
         "data set, an empty seed list during inertia, WeightedIndex overflow, step counter overflow — model "
-        "Panic 5..9; theorem sampler_no_panic shows these are the only ones",
+        "Panic 5..9; theorem sampler_no_panic shows these are the only ones (conditional on the state-dependent choices_ok); closed "
+        "forms: C16.sampler_no_panic_oops (Oops, data_ok, >= 2 sequences, all longer than the width, wrap >= width; for every choice "
+        "only conditions on the DATA SET: z < n, new start inside the sequence, no UOverflow; length chs <= usize::MAX ==> the "
+        "construction and the whole run are Ok) and C16F.sampler_no_panic_oops_stream(_closed) (same premises, EVERY stream of "
+        "u32/u64 words, every libm: Ok, or Panic 8, or Err 5 = the finite stream ended - nothing else)",
+        "DOCUMENTED OBSERVATION (real code, inside the quantifier of C16 as written; no known-findings entry, the check treats "
+        "site 8 as documented): the weight overflow panic. corpus/C16/panics.txt p16 (Oops, Sampler::new, width 100, four DNA "
+        "sequences of 3100 symbols sharing a run of 100 A, StdRng seed 2): after 5 calls the hold-out's best score exceeds 1024, "
+        "2f64.powf(score) = +inf, the weights sum to +inf and WeightedIndex::new -> Uniform::new(0, +inf) panics in update_holdout "
+        "(model Panic 8). The unconditional no-panic statement is therefore false "
+        "(C16F.sampler_no_panic_oops_unconditional_refuted); C16 holds 'up to the documented panic 8', which depends on "
+        "magnitudes the model leaves to the exp2 oracle. Patch proposed in notes/sampler.md (weights relative to the best score)",
+        "determinism ('same data, parameters and seed => identical traces'): PROVED -- the trace of k calls and the initial starts "
+        "are a function of the words the generator hands out and depend only on the words consumed (C16F.sampler_deterministic, "
+        "initial_starts_deterministic; model of rand 0.8.8's integer and float sampling in SamplerStream.v, tied on every call by "
+        "the rw= replay); CHECKED, NOT PROVED -- the generator itself (StdRng = ChaCha12: seed -> words; no model) and that the "
+        "implementation draws from nothing but its generator (rerun=same, a hand-written PROPFAIL; mutation w1). The former "
+        "C16.sampler_deterministic (chs1 = chs2 -> equal runs, no content) is deleted",
+        "index::sample is modelled for length < 500_000 and amount < 163 (Err 6 otherwise -> DIFF); its result is proved to be a "
+        "valid seed set (C16F.seed_set_from_stream_valid: Floyd / in-place invariants), so the construction never ends in Err 2 "
+        "(sampler_stream_never_err2); closed form of the main theorem: sampler_inv_stream_closed (Holds_C16 at every step, or "
+        "Panic 5..9, or Err 5 / Err 6 - nothing else)",
         "weights_support_partial: pow(2,-inf) and pow(2,NaN) are not > 0 (IEEE 754 / C99 F.10.4.4), stated as premises on the oracle; "
         "the PSSM has the shape pssm_shape (executable, checked on every replayed call, not derived from to_freq / into_scoring; only "
         "the zero-background half is a theorem: zero_background_cell_is_neg_inf); the converse direction (a live position has a "
         "positive weight) is NOT proved (needs magnitude bounds)",
-        "allowed_g admits OutOfFuel: the scale-adjustment loop of Uniform::new is modelled with fuel 8 (never more than 1 iteration observed)",
+        "allowed_g / allowed_w list OutOfFuel (fuel 8 of the scale loop of Uniform::new); it is proved impossible "
+        "(C16F.uniform_scale_fuel_suffices: two tests suffice; next_g_never_out_of_fuel, sampler_stream_never_out_of_fuel)",
         "generator words are u64 (0 <= word < 2^64); for these word_ok and scale_ok are theorems (word_fraction_ok, uniform_scale_ok)",
         "SamplerBuilder::temperature is ignored by _new (hard-coded 1.0): pinned by the translator (gen_weights_are_model); a future "
         "change of the builder shows up as a broken obligation of SamplerSkel.v",
